@@ -32,10 +32,21 @@ def _from_digits(d, ext):
     return n
 
 
+_CALLS, _CTX = [0], [None]
+
+
 def _do_read(types, mx, data, stream='counting'):
     cls = types.VarInt if mx == 5 else types.VarLong
     stream_obj, st = open_stream(stream, data)
-    kind, val = run_with_budget(lambda: cls.read(stream_obj), 5000)
+    # the decoder is reached both ways: directly, and as a packet field (read_with_context) - every other call each
+    _CALLS[0] += 1
+    if _CALLS[0] % 2:
+        kind, val = run_with_budget(lambda: cls.read(stream_obj), 5000)
+    else:
+        if _CTX[0] is None:
+            from minecraft.networking.connection import ConnectionContext
+            _CTX[0] = ConnectionContext(protocol_version=757)
+        kind, val = run_with_budget(lambda: cls.read_with_context(stream_obj, _CTX[0]), 5000)
     if kind == 'ok':
         if not isinstance(val, int) or isinstance(val, bool):
             return 'other', st.pos, None, 'returned %r' % (val,)
